@@ -2,7 +2,10 @@
 # tools/try_seed_wt.sh <slot> <patch.diff> <ID> [quick|thorough]
 # Like try_seed.sh, but leaves /repo and /verif/harness alone: the seeded change is applied to a scratch
 # worktree /tmp/try<slot>/repo and the check runs from a copy of the harness (/tmp/try<slot>/verif) whose
-# path dependencies point at that worktree. Several slots can run side by side. Remove a slot with
+# path dependencies point at that worktree. Several slots can run side by side.
+# NOTE: read the signatures, not just "VIOLATION": a slot driven by a nohup/background queue runs the checks
+# with HUP/INT/QUIT ignored on entry; try the clean tree in the same slot (patch "-") when in doubt.
+# Remove a slot with
 #   git -C /repo worktree remove --force /tmp/try<slot>/repo; rm -rf /tmp/try<slot>
 SLOT="/tmp/try$1"; P="$2"; ID="$3"; MODE="${4:-quick}"
 set -u
